@@ -406,7 +406,7 @@ def condition_registration_order(r, ext):
     return []
 
 
-def unhandled_failures(r, ext, xs):
+def unhandled_failures(r, ext, xs, late_only=False):
     """restates C02 "a failed event that no waiter handles makes run()/step() raise that exception at that instant instead of
     continuing silently".  Who handled a failure is decided from what the harness saw, not from the event's `defused` mark:
     a process that was waiting on the event received the exception, or a condition that had the event as operand was still
@@ -440,9 +440,16 @@ def unhandled_failures(r, ext, xs):
             if clab in ext or tc is None or tc >= pe:
                 inert = None; break        # a condition that was (or may have been) undecided: it handles the failure
             inert.append((clab, kind, tc))
-        if inert is None:
+        if inert is None or (late_only and not inert):
             continue
         if not any(l.split(' ')[1] == type(ev._value).__name__ for l in xs):
+            if late_only:
+                clab, kind, tc = inert[0]
+                return [{'what': f'operand e{lab} of {kind} e{clab} (operands {[r.lab(o) for o in r.conds[clab][1]]}) failed with {ev._value!r} and was '
+                                 f'processed at {r.processed[lab][1]} in kernel step {pe}, after the condition had been triggered (kernel step {tc}, by '
+                                 f'another operand): an operand completing after the condition triggered changes nothing - the condition does not '
+                                 f'take care of this failure, no process was waiting on e{lab}, so the run must raise it; it went on'
+                                 f'{" and the event is marked defused" if ev.defused else ""}', 'signature': 'c05-late-failure-swallowed'}]
             why = ('; '.join(f'{kind} e{clab} has it as operand but had already been triggered in kernel step {tc}, before e{lab} was processed '
                              f'in step {pe}' for clab, kind, tc in inert)) or 'no condition has it as operand'
             return [{'what': f'event e{lab} failed with {ev._value!r} and was processed at {r.processed[lab][1]}; no process was waiting on it '
@@ -690,6 +697,11 @@ def oracle_c05(case, lines, runner=None):
             if fail_first is None:
                 fails.append({'what': f'{kind} e{lab} failed although no operand failed', 'signature': 'c05-spurious-fail'}); break
     fails += operand_failure_handled(r, by_label, ext, nested)
+    if case.mode == 'step':
+        # "operands completing after the condition triggered change nothing": an operand that FAILS after the condition was
+        # triggered (in an earlier kernel step) - also in the same instant, before the condition itself is processed - is not
+        # the condition's business any more: unless a process waiting on that operand receives the failure, the run raises it
+        fails += unhandled_failures(r, ext, [l for l in lines if l.startswith('X ')], late_only=True)
     return fails[:3]
 
 
